@@ -32,7 +32,7 @@ RULE = (
     'Part every_statement enumerates EVERY statement index of every step of a '
     'dataset as fault point and as kill point (exhaustive per dataset); part '
     'sigkill delivers a real SIGKILL in a child process at a chosen '
-    'statement; part fine_grid does the every-statement enumeration for a set-zeta-grid that stores 100,001-250,000 levels; part fine_history faults and kills rise / recession while they store > 10,000 crossing rows each. Oracle (model = set of completed steps with arguments): after '
+    'statement; part fine_grid does the every-statement enumeration for a set-zeta-grid that stores 100,001-250,000 levels; part fine_history faults and kills rise / recession while they store > 10,000 crossing rows each; part session runs histories of clean, failing and faulted steps on ONE connection kept open across all steps (every connect() of the dispatch code returns it). Oracle (model = set of completed steps with arguments): after '
     'every operation the logical dump of the file equals the dump of a '
     'reference file built by running exactly the completed steps once each '
     'in canonical order on a fresh copy of the loaded dataset (a failed, '
@@ -185,6 +185,96 @@ class Machine:
                 what, step, dbdump.diff(got, before)))
 
 
+class _Switch:
+    """Plan holder for a connection that outlives several operations."""
+
+    def __init__(self):
+        self.plan = None
+        self.commits = 0
+
+    def statement(self, sql):
+        if self.plan is not None:
+            self.plan.statement(sql)
+
+
+class SharedConnection:
+    """Stands in for the sqlite3 module inside spowtd.user_interface: every
+    connect() to the dataset returns one and the same connection object, as
+    in a program (a notebook, a batch script) that opens the dataset once
+    and carries out the steps on that connection.  `with connection:` in the
+    package's own dispatch still commits or rolls back each step."""
+
+    def __init__(self, path):
+        self.path = os.path.realpath(path)
+        self.switch = _Switch()
+        self.connection = None
+
+    def __getattr__(self, name):
+        return getattr(sqlite3, name)
+
+    def connect(self, path, *args, **kwargs):
+        if os.path.realpath(path) != self.path:
+            return sqlite3.connect(path, *args, **kwargs)
+        if self.connection is None:
+            self.connection = sqlite3.connect(
+                path, factory=faults.make_connection_class(self.switch))
+        return self.connection
+
+    def close(self):
+        if self.connection is not None:
+            self.connection.close()
+            self.connection = None
+
+
+class SessionMachine(Machine):
+    """All operations on the dataset file go through one connection."""
+
+    def __init__(self, case):
+        super().__init__(case)
+        self.session = SharedConnection(self.db)
+
+    def close(self):
+        self.session.close()
+        super().close()
+
+    def run(self, step, arg, db=None, plan=None):
+        if db is not None:
+            # references and dry runs on copies: the ordinary command line
+            return super().run(step, arg, db=db, plan=plan)
+        from vfw import tree
+        ui = tree.mod('user_interface')
+        argv = step_argv(self.case, step, arg, self.db)
+        original = ui.sqlite3
+        ui.sqlite3 = self.session
+        self.session.switch.plan = plan
+        try:
+            dataset.cli(argv)
+        except (faults.SimulatedKill, KeyboardInterrupt) as exc:
+            return exc
+        except Exception as exc:  # pylint: disable=broad-except
+            return exc
+        finally:
+            self.session.switch.plan = None
+            ui.sqlite3 = original
+        return None
+
+
+@st.composite
+def session_histories(draw, tier):
+    record = draw(histories(tier))
+    ops = [dict(op, kind='fault') if op['kind'] == 'kill' else op
+           for op in record['ops']]
+    if draw(st.booleans()):
+        # an attempt that fails by itself comes first (a curve before the
+        # grid is set): whatever it leaves on the connection must not
+        # matter to the steps that follow
+        ops.insert(0, {'kind': 'run', 'arg': draw(st.integers(0, 3)),
+                       'step': draw(st.sampled_from(['rise', 'recession']))})
+    record['ops'] = ops
+    record['session'] = True
+    return record
+
+
 def apply_op(machine, op, labels):
     step, arg, kind = op['step'], op['arg'], op['kind']
     if kind == 'run':
@@ -275,7 +365,7 @@ def histories(draw, tier):
 
 
 def check_history(case):
-    machine = Machine(case)
+    machine = SessionMachine(case) if case.get('session') else Machine(case)
     labels = set()
     try:
         machine.load()
@@ -292,6 +382,8 @@ def check_history(case):
         # a second attempt must not damage what the first one stored
         for index, step in enumerate(list(machine.completed)):
             variant = (len(case['ops']) + index) % 3
+            if case.get('session') and variant == 2:
+                variant = 1     # (a killed process has no connection left)
             if variant == 0:
                 op = {'kind': 'run', 'step': step, 'arg': 3}
             elif variant == 1:
@@ -312,6 +404,8 @@ def check_history(case):
     if case.get('fine_grid') and labels & {
             'fault-after-first-write', 'kill-after-first-write'}:
         labels.update({'nontrivial', 'crossing-rows>10000'})
+    if case.get('session'):
+        labels.add('one-connection-for-all-steps')
     labels.add('completed:{}'.format(len(order)))
     return labels
 
@@ -485,6 +579,12 @@ PARTS = [
          shards={'quick': 3, 'thorough': 16},
          describe='rise / recession storing > 10,000 crossing rows each, '
                   'faulted and killed inside that stream'),
+    Part('session', check_history,
+         strategy=lambda tier: session_histories(tier),
+         budget={'quick': 6, 'thorough': 150},
+         shards={'quick': 4, 'thorough': 16},
+         describe='the same histories (faults, no kills) with every step '
+                  'carried out on one connection kept open by the caller'),
     Part('sigkill', check_sigkill, strategy=lambda tier: sigkill_cases(),
          budget={'quick': 3, 'thorough': 12},
          shards={'quick': 4, 'thorough': 16},
